@@ -3,30 +3,30 @@ package main
 // Contracts: structured comments (//@ ...) in /repo/<pkg>/contracts_verif.go, keyed by function and loop ordinal.
 
 import (
-	"strconv"
 	"bytes"
-	"go/constant"
-	"math/big"
 	"fmt"
 	"go/ast"
+	"go/constant"
 	"go/parser"
 	"go/printer"
 	"go/token"
 	"go/types"
+	"math/big"
 	"regexp"
+	"strconv"
 	"strings"
 )
 
 type Clause struct {
-	Kind  string // requires ensures invariant decreases modifies panics entry
-	Label string
-	Text  string
-	Ord   string
-	Name  string // entry name
-	Props []string
-	Line  string // file:line of the contract comment
-	LockInv bool // lock invariant: not part of the caller-visible contract
-	Scope   bool // callsite scope restriction (assumed, listed)
+	Kind    string // requires ensures invariant decreases modifies panics entry
+	Label   string
+	Text    string
+	Ord     string
+	Name    string // entry name
+	Props   []string
+	Line    string // file:line of the contract comment
+	LockInv bool   // lock invariant: not part of the caller-visible contract
+	Scope   bool   // callsite scope restriction (assumed, listed)
 
 	compiled bool
 	err      error
@@ -39,35 +39,35 @@ type Clause struct {
 }
 
 type Contract struct {
-	Target     string
-	Requires   []*Clause
-	Ensures    []*Clause
-	Entries    []*Clause
-	Modifies   []*Clause
-	PanicsWhen []*Clause
-	Measure    *Clause // function-level `decreases e`: termination measure of a recursive (lemma) function
-	Loops      map[string][]*Clause
-	Callbacks  map[string][]*Clause // function-typed parameter -> cb-requires / cb-modifies / cb-ensures
-	Spawns     map[string][]*Clause // go statement ordinal -> requires on the spawned literal's arguments
-	Ghosts     []GhostParam
-	Inline     bool
-	Split      map[int]bool
-	NoError    []string
-	NonNil     []string
-	Trusted    bool // contract assumed, body not verified (listed as assumption)
-	NoFrame    bool
-	Bounded    string
-	Props      []string
-	allocates  bool
-	checkFrame bool
-	noReturnOK bool
-	readsClock bool
-	MayPanic   []string
-	iface      bool
-	CallSites  map[string][]*Clause // "<callee text>#<ordinal>" -> requires evaluated in the caller's scope at that call
-	seals, opens bool // the function performs an AEAD seal / open whose ghost trace its ensures clauses describe
-	File       string
-	used       bool
+	Target       string
+	Requires     []*Clause
+	Ensures      []*Clause
+	Entries      []*Clause
+	Modifies     []*Clause
+	PanicsWhen   []*Clause
+	Measure      *Clause // function-level `decreases e`: termination measure of a recursive (lemma) function
+	Loops        map[string][]*Clause
+	Callbacks    map[string][]*Clause // function-typed parameter -> cb-requires / cb-modifies / cb-ensures
+	Spawns       map[string][]*Clause // go statement ordinal -> requires on the spawned literal's arguments
+	Ghosts       []GhostParam
+	Inline       bool
+	Split        map[int]bool
+	NoError      []string
+	NonNil       []string
+	Trusted      bool // contract assumed, body not verified (listed as assumption)
+	NoFrame      bool
+	Bounded      string
+	Props        []string
+	allocates    bool
+	checkFrame   bool
+	noReturnOK   bool
+	readsClock   bool
+	MayPanic     []string
+	iface        bool
+	CallSites    map[string][]*Clause // "<callee text>#<ordinal>" -> requires evaluated in the caller's scope at that call
+	seals, opens bool                 // the function performs an AEAD seal / open whose ghost trace its ensures clauses describe
+	File         string
+	used         bool
 }
 
 type GhostParam struct {
@@ -895,7 +895,7 @@ func (vc *VC) compileClause(fi *FuncInfo, c *Clause) {
 	}
 
 	var src string
- 	switch c.Kind {
+	switch c.Kind {
 	case "modifies", "cb-modifies":
 		src = "func(" + strings.Join(params, ", ") + ") []any { return []any{" + text + "} }"
 	case "entry", "decreases", "fdecreases":
